@@ -398,11 +398,27 @@ def rolloutcb : P String := do
   let accRef := RolloutBl.accepts (fun _ _ => pv) alpha st (Ops.rollout candP 1 st.dataset)
   pure s!"accept={Rl4co.Proto.bit acc} refaccept={Rl4co.Proto.bit accRef} mean={rs st'.mean} blvals={rsl st'.blVals} n={st'.dataset.length} candmean={rs (RolloutBl.lmean cand)}"
 
+/-- `train.a2cgroups ACTORLR optrat(CRITICLR)` → the optimizer's parameter groups as coded: `policy|critic:lr,…` -/
+def a2cgroups : P String := do
+  let a ← pRat; let c ← pOptRat
+  atEnd
+  let gs := A2C.groupsC a c
+  pure s!"groups={",".intercalate (gs.map (fun g => (if g.1 then "policy" else "critic") ++ ":" ++ rs g.2))}"
+
+/-- `train.invrows A B` → the row pairs `invariance_loss` compares, as coded: `r0-r1,…` for b < B, 1 ≤ i < A -/
+def invrows : P String := do
+  let a ← pNat; let b ← pNat
+  atEnd
+  let prs := (List.range b).flatMap (fun bb => (List.range a).filterMap (fun i =>
+    if i = 0 then none else some (invRowsC a b bb i)))
+  pure s!"pairs={",".intercalate (prs.map (fun p => s!"{p.1}-{p.2}"))}"
+
 def run (p : P String) (toks : List String) : Option String := (p toks).map (·.1)
 
 def handlers : List (String × (List String → Option String)) :=
   [("train.welford", run welford), ("train.scale", run scale), ("train.ema", run ema),
    ("train.warmup", run warmup), ("train.reinforce", run reinforce), ("train.ppo", run ppo),
-   ("train.symnco", run symnco), ("train.rolloutcb", run rolloutcb)]
+   ("train.symnco", run symnco), ("train.rolloutcb", run rolloutcb),
+   ("train.a2cgroups", run a2cgroups), ("train.invrows", run invrows)]
 
 end Rl4co.Driver.Train
